@@ -58,7 +58,7 @@ def randint (lo hi : Int) : G Int := do
 
 def rand : G Rat := do
   match (← pop) with
-  | .r u => pure u
+  | .r u => if 0 ≤ u ∧ u < 1 then pure u else fail "rand: range"
   | _ => fail "expected rand"
 
 def poisson : G Nat := do
@@ -68,7 +68,8 @@ def poisson : G Nat := do
 
 def randomSample (n : Nat) : G (List Rat) := do
   match (← pop) with
-  | .rs vals => if vals.length = n then pure vals else fail "random_sample: size"
+  | .rs vals => if vals.length = n ∧ vals.all (fun q => decide (0 ≤ q ∧ q < 1)) then pure vals
+                else fail "random_sample: size / range"
   | _ => fail "expected random_sample"
 
 inductive ProbSpec | none | mixed | const (p : Rat) | list (ps : List Rat)
@@ -188,16 +189,21 @@ def osChoicesOk (numOs numProcesses : Nat) (cs : List (Option Nat)) : Bool :=
   (Option.none :: (List.range numOs).map some).all (fun o => decide (countOcc cs o ≤ numProcesses))
   && (cs.contains Option.none || (List.range numOs).all (fun o => cs.contains (some o)))
 
+/-- one draw of the OS choices: `[None] + choice(possible_os, n-1)` when there are fewer
+escalations than OSs, `choice(possible_os, n)` otherwise -/
+def drawOnce (numOs n : Nat) : G (List (Option Nat)) :=
+  if n < numOs then do
+    let idx ← choiceN (numOs + 1) (n - 1)
+    pure (Option.none :: idx.map (osOfIdx numOs))
+  else do
+    let idx ← choiceN (numOs + 1) n
+    pure (idx.map (osOfIdx numOs))
+
 /-- the re-draw loop of `_generate_privescs` -/
 def drawOsChoices (numOs numProcesses n : Nat) : Nat → G (List (Option Nat))
   | 0 => fail "fuel"
   | fuel + 1 => do
-    let cs ← if n < numOs then do
-        let idx ← choiceN (numOs + 1) (n - 1)
-        pure (Option.none :: idx.map (osOfIdx numOs))
-      else do
-        let idx ← choiceN (numOs + 1) n
-        pure (idx.map (osOfIdx numOs))
+    let cs ← drawOnce numOs n
     if osChoicesOk numOs numProcesses cs then pure cs else drawOsChoices numOs numProcesses n fuel
 
 def genPrivescLoop (numProcesses n : Nat) (cost : Int) (probs : List Rat) (osChoices : List (Option Nat)) :
@@ -249,49 +255,49 @@ structure Prev where
   procs : List Nat := []
 deriving Inhabited
 
+/-- `first or rand() < threshold`: no draw when `first` -/
+def freshDraw (first : Bool) (threshold : Rat) : G Bool :=
+  if first then pure true else rand >>= fun u => pure (decide (u < threshold))
+
+/-- a fresh uniform value or a uniformly chosen previous one -/
+def freshOrPrev (fresh : Bool) (drawFresh : G Nat) (prev : List Nat) : G Nat :=
+  if fresh then drawFresh else choice1 prev.length >>= fun j => pure (prev.getD j 0)
+
 /-- the sampling loop of `_dirichlet_process`: `i` runs from `i0`, `k` iterations left -/
 def dpLoop (alphaV : Rat) (numOptions : Nat) : Nat → Nat → List Bool → List Nat → G (List Bool × List Nat)
   | 0, _, cfg, prev => pure (cfg, prev)
-  | k + 1, i, cfg, prev => do
-    let fresh ← if i == 0 then pure true else do
-      let u ← rand
-      pure (decide (u < alphaV / (alphaV + (i : Rat) - 1)))
-    let x ← if fresh then do pure (← randint 0 numOptions).toNat
-            else do
-              let j ← choice1 prev.length
-              pure (prev.getD j 0)
+  | k + 1, i, cfg, prev =>
+    freshDraw (i == 0) (alphaV / (alphaV + (i : Rat) - 1)) >>= fun fresh =>
+    freshOrPrev fresh (randint 0 numOptions >>= fun v => pure v.toNat) prev >>= fun x =>
     dpLoop alphaV numOptions k (i + 1) (cfg.set x true) (prev ++ [x])
 
 /-- `_dirichlet_process` -/
-def dirichletProcess (alphaV : Rat) (numOptions : Nat) (prev : List Nat) : G (List Bool × List Nat) := do
-  let n := max (← poisson) 1
-  dpLoop alphaV numOptions n 0 (List.replicate numOptions false) prev
+def dirichletProcess (alphaV : Rat) (numOptions : Nat) (prev : List Nat) : G (List Bool × List Nat) :=
+  poisson >>= fun n => dpLoop alphaV numOptions (max n 1) 0 (List.replicate numOptions false) prev
 
 /-- `_dirichlet_sample` (with the Dirichlet-process weight `alpha / (alpha + n - 1)`) -/
-def dirichletSample (alphaV : Rat) (numChoices : Nat) (prev : List Nat) : G (Nat × List Nat) := do
-  let fresh ← if prev.isEmpty then pure true else do
-    let u ← rand
-    pure (decide (u < alphaV / (alphaV + (prev.length : Rat) - 1)))
-  let c ← if fresh then choice1 numChoices else do
-    let j ← choice1 prev.length
-    pure (prev.getD j 0)
+def dirichletSample (alphaV : Rat) (numChoices : Nat) (prev : List Nat) : G (Nat × List Nat) :=
+  freshDraw prev.isEmpty (alphaV / (alphaV + (prev.length : Rat) - 1)) >>= fun fresh =>
+  freshOrPrev fresh (choice1 numChoices) prev >>= fun c =>
   pure (c, prev ++ [c])
 
+/-- a new configuration drawn by the nested Dirichlet process (`_sample_config`) -/
+def sampleConfig (p : Params) (prev : Prev) : G (Cfg × Prev) :=
+  dirichletSample p.alphaV p.numOs prev.os >>= fun o =>
+  dirichletProcess p.alphaV p.numServices prev.srvs >>= fun sv =>
+  dirichletProcess p.alphaV p.numProcesses prev.procs >>= fun pr =>
+  pure ((o.1, sv.1, pr.1),
+        { configs := prev.configs ++ [(o.1, sv.1, pr.1)], os := o.2, srvs := sv.2, procs := pr.2 })
+
+/-- a previously sampled configuration, uniformly -/
+def reuseConfig (prev : Prev) : G (Cfg × Prev) :=
+  choice1 prev.configs.length >>= fun j =>
+  pure (prev.configs.getD j default, { prev with configs := prev.configs ++ [prev.configs.getD j default] })
+
 /-- `_get_host_config` -/
-def hostConfig (p : Params) (hostNum : Nat) (prev : Prev) : G (Cfg × Prev) := do
-  let newCfg ← if hostNum == 0 then pure true else do
-    let u ← rand
-    pure (decide (u < p.alphaH / (p.alphaH + (hostNum : Rat) - 1)))
-  if newCfg then do
-    let (os, pos) ← dirichletSample p.alphaV p.numOs prev.os
-    let (svc, psv) ← dirichletProcess p.alphaV p.numServices prev.srvs
-    let (proc, ppr) ← dirichletProcess p.alphaV p.numProcesses prev.procs
-    let cfg : Cfg := (os, svc, proc)
-    pure (cfg, { configs := prev.configs ++ [cfg], os := pos, srvs := psv, procs := ppr })
-  else do
-    let j ← choice1 prev.configs.length
-    let cfg := prev.configs.getD j default
-    pure (cfg, { prev with configs := prev.configs ++ [cfg] })
+def hostConfig (p : Params) (hostNum : Nat) (prev : Prev) : G (Cfg × Prev) :=
+  freshDraw (hostNum == 0) (p.alphaH / (p.alphaH + (hostNum : Rat) - 1)) >>= fun newCfg =>
+  if newCfg then sampleConfig p prev else reuseConfig prev
 
 def mkHost (p : Params) (sens : List (Addr × Int)) (addr : Addr) (cfg : Cfg) : HostDef :=
   { addr, os := onehotB p.numOs cfg.1, svc := cfg.2.1, proc := cfg.2.2,
@@ -349,6 +355,10 @@ def updateVulnerable (es : List ExploitDef) (ps : List PrivescDef) (lvl : Nat) :
     let pe := valid.getD pi default
     pure { h with proc := match pe.proc with | some pr => h.proc.set pr true | Option.none => h.proc }
 
+/-- a sensitive host that is not ROOT-vulnerable is made so -/
+def fixSensitive (es : List ExploitDef) (ps : List PrivescDef) (retries : Nat) (h : HostDef) : G HostDef :=
+  if !hostVulnerable es ps h 2 then updateVulnerable es ps 2 retries h else pure h
+
 /-- first pass: hosts in order, tracking the subnets known to be vulnerable -/
 def ensurePass1 (es : List ExploitDef) (ps : List PrivescDef) (sens : List (Addr × Int)) (retries : Nat) :
     List HostDef → List Nat → G (List HostDef × List Nat)
@@ -359,7 +369,7 @@ def ensurePass1 (es : List ExploitDef) (ps : List PrivescDef) (sens : List (Addr
       let (rest, vul') ← ensurePass1 es ps sens retries hs vul
       pure (h :: rest, vul')
     else if isSens then do
-      let h' ← if !hostVulnerable es ps h 2 then updateVulnerable es ps 2 retries h else pure h
+      let h' ← fixSensitive es ps retries h
       let (rest, vul') ← ensurePass1 es ps sens retries hs (vul ++ [h.addr.1])
       pure (h' :: rest, vul')
     else do
@@ -397,9 +407,15 @@ def insertBy (le : Nat → Nat → Bool) (x : Nat) : List Nat → List Nat
 def sortBy (le : Nat → Nat → Bool) (l : List Nat) : List Nat := l.foldr (insertBy le) []
 def natLe (a b : Nat) : Bool := decide (a ≤ b)
 
+/-- a set of naturals as a duplicate-free list (order irrelevant: choices are made from the sorted
+list, results are stored sorted) -/
+def dedup : List Nat → List Nat
+  | [] => []
+  | x :: xs => if xs.contains x then dedup xs else x :: dedup xs
+
 /-- services of the exploits some host of subnet `s` is vulnerable to -/
 def subnetServices (es : List ExploitDef) (hosts : List HostDef) (s : Nat) : List Nat :=
-  ((es.filter fun e => hosts.any fun h => h.addr.1 == s && vulnE h e).map (·.svc)).eraseDups
+  dedup ((es.filter fun e => hosts.any fun h => h.addr.1 == s && vulnE h e).map (·.svc))
 
 /-- draw `k` services from `avail`, each time from the name-sorted remainder -/
 def drawAllowed : Nat → List Nat → List Nat → G (List Nat)
@@ -409,6 +425,10 @@ def drawAllowed : Nat → List Nat → List Nat → G (List Nat)
     let i ← choice1 sorted.length
     let x := sorted.getD i 0
     drawAllowed k (avail.erase x) (allowed ++ [x])
+
+/-- everything available when restrictiveness does not bite, otherwise `restrictiveness` draws -/
+def allowedFor (restrictiveness : Nat) (avail : List Nat) : G (List Nat) :=
+  if avail.length < restrictiveness then pure avail else drawAllowed restrictiveness avail []
 
 def fwPairs (ns : Nat) : List (Nat × Nat) :=
   (List.range ns).flatMap fun s => (List.range ns).map fun d => (s, d)
@@ -424,9 +444,7 @@ def genFirewall (numServices restrictiveness : Nat) (topo : List (List Int)) (es
       let r ← genFirewall numServices restrictiveness topo es hosts rest
       pure (((src, dest), List.range numServices) :: r)
     else do
-      let avail := subnetServices es hosts dest
-      let allowed ← if avail.length < restrictiveness then pure avail
-                    else drawAllowed restrictiveness avail []
+      let allowed ← allowedFor restrictiveness (subnetServices es hosts dest)
       let r ← genFirewall numServices restrictiveness topo es hosts rest
       pure (((src, dest), sortBy natLe allowed) :: r)
 
@@ -434,26 +452,37 @@ def genFirewall (numServices restrictiveness : Nat) (topo : List (List Int)) (es
 
 def streamLength : G Nat := fun s => .ok (s.length, s)
 
-def generate (p : Params) : G Scenario := do
+def boundsG (subnets : List Nat) (b : Option (Nat × Nat)) : G (Nat × Nat) :=
+  match genBounds subnets b with
+  | some b => pure b
+  | Option.none => fail "assert: address_space_bounds"
+
+def initialHosts (p : Params) (sens : List (Addr × Int)) (addrs : List Addr) : G (List HostDef) :=
+  if p.uniform then
+    uniformHosts p sens ((perms p.numServices).dropLast) ((perms p.numProcesses).dropLast) addrs
+  else correlatedHosts p sens addrs 0 {}
+
+/-- `_ensure_host_vulnerability` -/
+def ensureVulnerable (es : List ExploitDef) (ps : List PrivescDef) (sens : List (Addr × Int))
+    (retries : Nat) (subnets : List Nat) (hosts : List HostDef) : G (List HostDef) :=
+  ensurePass1 es ps sens retries hosts [] >>= fun r =>
+  ensurePass2 es ps retries subnets.zipIdx r.2 r.1
+
+/-- `ScenarioGenerator.generate` (explicit binds, so that a successful run can be taken apart) -/
+def generate (p : Params) : G Scenario :=
   if !p.valid then fail "assert: parameters" else
   let subnets := genSubnets p.period p.userSize p.numHosts
   let topo := genTopo subnets.length
-  let bounds ← match genBounds subnets p.bounds with
-    | some b => pure b
-    | Option.none => fail "assert: address_space_bounds"
-  let fuel := (← streamLength) + 1
-  let eprobs ← actionProbs p.nExploits p.exploitProbs
-  let es ← genExploits p.numServices p.numOs p.nExploits p.exploitCost eprobs fuel []
-  let pprobs ← actionProbs p.nPrivescs p.privescProbs
-  let ps ← genPrivescs p.numOs p.numProcesses p.nPrivescs p.privescCost pprobs fuel
-  let sens ← genSensitive p subnets
-  let addrs := allAddrs subnets
-  let hosts ← if p.uniform then
-      uniformHosts p sens ((perms p.numServices).dropLast) ((perms p.numProcesses).dropLast) addrs
-    else correlatedHosts p sens addrs 0 {}
-  let (hosts, vul) ← ensurePass1 es ps sens p.vulRetries hosts []
-  let hosts ← ensurePass2 es ps p.vulRetries subnets.zipIdx vul hosts
-  let fw ← genFirewall p.numServices p.restrictiveness topo es hosts (fwPairs subnets.length)
+  boundsG subnets p.bounds >>= fun bounds =>
+  streamLength >>= fun n =>
+  actionProbs p.nExploits p.exploitProbs >>= fun eprobs =>
+  genExploits p.numServices p.numOs p.nExploits p.exploitCost eprobs (n + 1) [] >>= fun es =>
+  actionProbs p.nPrivescs p.privescProbs >>= fun pprobs =>
+  genPrivescs p.numOs p.numProcesses p.nPrivescs p.privescCost pprobs (n + 1) >>= fun ps =>
+  genSensitive p subnets >>= fun sens =>
+  initialHosts p sens (allAddrs subnets) >>= fun hosts0 =>
+  ensureVulnerable es ps sens p.vulRetries subnets hosts0 >>= fun hosts =>
+  genFirewall p.numServices p.restrictiveness topo es hosts (fwPairs subnets.length) >>= fun fw =>
   pure { subnets, topo, nOs := p.numOs, nSvc := p.numServices, nProc := p.numProcesses, sens,
          exploits := es, privescs := ps, svcScanCost := p.svcScanCost, osScanCost := p.osScanCost,
          subnetScanCost := p.subnetScanCost, procScanCost := p.procScanCost, fw, hosts,
